@@ -108,12 +108,22 @@ func is(p Pair, side int, rel, comp string) bool {
 
 type subParams struct {
 	path, method, id, payload, ttl, subID, role string
-	hdrs, vals                                 []kv
-	fwdResp, fwdH, fwdC                        []string
-	rule                                       config.MechanismConfig
+	hdrs, vals                                  []kv
+	fwdResp, fwdH, fwdC                         []string
+	rule                                        config.MechanismConfig
 }
 
 const urlTail = `?s={{ .Subject.ID | urlenc }}&r={{ .Subject.Attributes.role | urlenc }}&v={{ .Values | toJson | urlenc }}`
+
+// subjectOf builds a subject with several attributes and nested objects, afresh for every
+// evaluation: whatever is derived from it must not depend on the iteration order of its maps.
+func subjectOf(id, role string) *subject.Subject {
+	return &subject.Subject{ID: id, Attributes: map[string]any{
+		"role": role, "tenant": "t1", "level": 3, "mail": id + "@verif.example", "active": true,
+		"groups": map[string]any{"g1": "a", "g2": "b", "g3": "c", "g4": "d", "g5": map[string]any{"x": 1, "y": 2, "z": 3}},
+		"claims": map[string]any{"iss": "idp", "amr": []any{"pwd", "otp"}, "acr": "2", "sid": "s-" + id},
+	}}
+}
 
 func addRule(sp *subParams, k string, v any) {
 	if sp.rule == nil {
@@ -131,14 +141,20 @@ func subHandler(p Pair, side int, base string, authz bool) (evalFn, error) {
 	}
 
 	sp := subParams{
-		path: "/" + ep + "/e", method: "POST", id: "m", payload: `{"p":"base"}`, ttl: "30s",
-		subID: "u1", role: "r1", hdrs: hdrs(p.NH), vals: vals(p.NV),
+		path: "/" + ep + "/e", method: "POST", id: "m", ttl: "30s",
+		payload: `{"p":"base","x":"{{ .Request.Header "X-Var" }}","path":"{{ .Request.URL.Path }}"}`,
+		subID:   "u1", role: "r1", hdrs: hdrs(p.NH), vals: vals(p.NV),
 		fwdResp: []string{"X-Result"}, fwdH: []string{"X-Fwd-A"}, fwdC: []string{"ca"},
 	}
 
-	fwdA := "1"
+	fwdA, xVar := "1", "1"
 
 	switch {
+	case is(p, side, "differ", "rendered_payload"):
+		xVar = "2" // same template, another request: the payload sent differs
+	case is(p, side, "differ", "expressions_error"):
+		// the answer has no "roles": the evaluation fails, there is no verdict
+		addRule(&sp, "expressions", []any{map[string]any{"expression": "Payload.roles.exists(r, r == 'admin')"}})
 	case is(p, side, "open", "fwd_header_value"):
 		fwdA = "9" // only the value of a forwarded request header differs
 	case is(p, side, "differ", "ep_url"):
@@ -252,9 +268,9 @@ func subHandler(p Pair, side int, base string, authz bool) (evalFn, error) {
 
 	return func(cch cache.Cache) string {
 		ctx := c10.NewCtx(cch,
-			map[string]string{"X-Fwd-A": fwdA, "X-Fwd-Ab": "2"},
+			map[string]string{"X-Fwd-A": fwdA, "X-Fwd-Ab": "2", "X-Var": xVar},
 			map[string]string{"ca": "3", "bca": "4", "caB": "5"})
-		sub := &subject.Subject{ID: sp.subID, Attributes: map[string]any{"role": sp.role}}
+		sub := subjectOf(sp.subID, sp.role)
 
 		if err := exec(ctx, sub); err != nil {
 			return classify(err)
@@ -542,7 +558,7 @@ func jwtFinalizer(p Pair, side int, keyStore string) (evalFn, error) {
 		ctx := c10.NewCtx(cch, nil, nil)
 		ctx.Out["x"] = out
 
-		if err := m.Execute(ctx, &subject.Subject{ID: subID, Attributes: map[string]any{"role": role}}); err != nil {
+		if err := m.Execute(ctx, subjectOf(subID, role)); err != nil {
 			return classify(err)
 		}
 
